@@ -675,6 +675,22 @@ impl World {
                     tokio::time::sleep(Duration::from_millis(1)).await;
                 }
             }
+            // the process-global ban list gets a permanent, a far-future and an already expired entry (IPs and node ids alike); the
+            // handler's periodic unban check (every 300 s of its clock) may remove the expired ones only
+            "Bans" => {
+                let mut l = discv5::verif::ban_list_snapshot();
+                let now = std::time::Instant::now();
+                let (perm, future, past) = (None, Some(now + Duration::from_secs(86_400)), now.checked_sub(Duration::from_secs(1)));
+                for (k, t) in [(1u8, perm), (2, future)] {
+                    l.ban_ips.insert(std::net::IpAddr::V4(Ipv4Addr::new(10, 99, 0, k)), t);
+                    l.ban_nodes.insert(self.parties[(k - 1) as usize].id, t);
+                }
+                if let Some(p) = past {
+                    l.ban_ips.insert(std::net::IpAddr::V4(Ipv4Addr::new(10, 99, 0, 3)), Some(p));
+                    l.ban_nodes.insert(self.parties[2].id, Some(p));
+                }
+                discv5::verif::ban_list_set(l);
+            }
             "Nop" => {}
             other => panic!("handler: unknown input kind {other}"),
         }
@@ -743,7 +759,18 @@ impl World {
         if self.dead {
             out.push(json!({"e": "Panic"}));
         }
-        json!({"i": self.step, "t": (tokio::time::Instant::now() - self.start).as_millis() as u64, "in": inp2, "out": out, "net": net, "exp": Value::Object(exp), "snap": snap})
+        // the global ban list: "perm" / "future" / "past" entries of op Bans that are (still) there
+        let bl = discv5::verif::ban_list_snapshot();
+        let mut bans: Vec<String> = vec![];
+        for (k, name) in [(1u8, "perm"), (2, "future"), (3, "past")] {
+            if bl.ban_ips.contains_key(&std::net::IpAddr::V4(Ipv4Addr::new(10, 99, 0, k))) {
+                bans.push(format!("ip:{name}"));
+            }
+            if bl.ban_nodes.contains_key(&self.parties[(k - 1) as usize].id) {
+                bans.push(format!("node:{name}"));
+            }
+        }
+        json!({"i": self.step, "t": (tokio::time::Instant::now() - self.start).as_millis() as u64, "in": inp2, "out": out, "net": net, "exp": Value::Object(exp), "snap": snap, "bans": bans})
     }
 }
 
@@ -754,6 +781,7 @@ pub fn run_behaviours(behaviours: &[Vec<Value>], out: &mut Out) -> Result<(), St
             let mut w: Option<World> = None;
             for inp in b {
                 if util::s(inp, "k") == "Reset" {
+                    discv5::verif::ban_list_reset();     // the permit / ban list is process-global
                     w = Some(World::new(inp));
                     out.emit(&json!({"i": 0, "t": 0, "in": inp, "out": [], "net": [], "exp": {}, "snap": {}}));
                     continue;
